@@ -101,3 +101,58 @@ def cemgil_more_reference_than_estimated_beats(inp, what=""):
     if "Cemgil" in what:
         return len(ref) > len(est) > 0
     return False
+
+
+# ---------------------------------------------------------------------------------------------
+# C14
+@region("beat_reference_beats_in_one_sample")
+def beat_reference_beats_in_one_sample(inp, what=""):
+    """p_score: >= 2 trimmed reference beats that all fall into one 10 ms sample -> median of an empty
+    inter-annotation-interval list is NaN -> int(NaN)"""
+    if inp.get("fault") or inp["entry"] not in ("evaluate", "p_score") or "NaN" not in what:
+        return False
+    ref = [F(x) for x in inp["base"]["ref"]]
+    est = [F(x) for x in inp["base"]["est"]]
+    if inp["entry"] == "evaluate":
+        ref = [x for x in ref if x >= 5]
+        est = [x for x in est if x >= 5]
+    if len(ref) < 2 or len(est) < 2:
+        return False
+    off = min(min(ref), min(est))
+    import math
+    return len({math.ceil((x - off) * 100) for x in ref}) == 1
+
+
+@region("estimate_boundary_on_reference_limit")
+def estimate_boundary_on_reference_limit(inp, what=""):
+    """util.adjust_intervals keeps an estimate interval that ends exactly at t_min or starts exactly at t_max as a
+    zero-length interval, which the later validation rejects"""
+    if inp.get("fault") or inp["entry"] != "evaluate" or "strictly positive" not in what:
+        return False
+    ri, ei = inp["base"]["ref"][0], inp["base"]["est"][0]
+    if not ri or not ei:
+        return False
+    tmax = max(F(b) for _, b in ri)
+    tmin = min(F(a) for a, _ in ri) if inp["task"] == "chord" else Fr(0)
+    return any(F(a) == tmax for a, _ in ei) or any(F(b) == tmin for _, b in ei) \
+        or all(F(b) <= tmin for _, b in ei)
+
+
+@region("chord_reference_zero_span")
+def chord_reference_zero_span(inp, what=""):
+    """a reference consisting of one interval of zero duration: chord.evaluate fails with TypeError"""
+    return inp.get("fault") == "reference_zero_duration" and len(inp["base"]["ref"][0]) == 1 and "TypeError" in what
+
+
+@region("beat_evaluate_two_dimensional")
+def beat_evaluate_two_dimensional(inp, what=""):
+    """beat.evaluate trims with a boolean mask before validating, which flattens a 2-D array"""
+    return inp["task"] == "beat" and inp["entry"] == "evaluate" and str(inp.get("fault", "")).startswith("two_dimensional") \
+        and "returned a result" in what
+
+
+@region("multipitch_negative_frequency")
+def multipitch_negative_frequency(inp, what=""):
+    """util.validate_frequencies applies np.abs even with allow_negatives=False"""
+    return inp["task"] == "multipitch" and str(inp.get("fault", "")).startswith("negative_frequency") \
+        and "returned a result" in what
